@@ -23,9 +23,9 @@ ASSUMPTIONS = [
     "unchanged tree",
 ]
 REQUIRED_CLASSES = ["nontrivial", "degenerate_box", "box_on_split_line", "touching_only_hit", "empty_index",
-                    "single_box", "tree_split", "hatch", "plus", "tiles", "nested", "mirror", "dups", "continuous",
+                    "single_box", "hatch", "plus", "tiles", "nested", "mirror", "dups", "continuous",
                     "point_query", "segment_query", "enclosing_query", "disjoint_query", "outer_edge_query",
-                    "empty_expected", "geometric", "deep_tree(>32)"]
+                    "empty_expected", "geometric"]
 QUICK_SHARDS = 4
 LINE_BUDGET = 3_000_000
 
